@@ -89,8 +89,12 @@ class ParamMonitor(Monitor):
                 w.probe("rejected_update_checked")
             v, lo, hi = real
             if _num(v):
-                if (lo is not None and _num(lo) and v < lo) or (
-                        hi is not None and _num(hi) and v > hi):
+                try:
+                    outside = (lo is not None and _num(lo) and v < lo) or (
+                        hi is not None and _num(hi) and v > hi)
+                except TypeError:
+                    outside = True     # not even comparable with its bounds
+                if outside:
                     vs.append(self.v({"kind": "value_outside_bounds", "op": k},
                                      f"param {pid}: {real}"))
             elif lo is not None or hi is not None:
